@@ -175,22 +175,24 @@ class DaemonObject(object):
             raise errors.DaemonError("unknown object")
 
     def get_next_stream_item(self, streamId):
-        if streamId not in self.daemon.streaming_responses:
-            raise errors.PyroError("item stream terminated")
-        client, timestamp, linger_timestamp, stream = self.daemon.streaming_responses[streamId]
-        if client is None:
-            # reset client connection association (can be None if proxy disconnected)
-            self.daemon.streaming_responses[streamId] = (current_context.client, timestamp, 0, stream)
+        with self.daemon.housekeeper_lock:
+            # (housekeeping and disconnect handling of other threads may remove or change the entry)
+            if streamId not in self.daemon.streaming_responses:
+                raise errors.PyroError("item stream terminated")
+            client, timestamp, linger_timestamp, stream = self.daemon.streaming_responses[streamId]
+            if client is None:
+                # reset client connection association (can be None if proxy disconnected)
+                self.daemon.streaming_responses[streamId] = (current_context.client, timestamp, 0, stream)
         try:
             return next(stream)
         except Exception:
             # in case of error (or StopIteration!) the stream is removed
-            del self.daemon.streaming_responses[streamId]
+            self.daemon.streaming_responses.pop(streamId, None)
             raise
 
     def close_stream(self, streamId):
-        if streamId in self.daemon.streaming_responses:
-            del self.daemon.streaming_responses[streamId]
+        with self.daemon.housekeeper_lock:
+            self.daemon.streaming_responses.pop(streamId, None)
 
 
 class Daemon(object):
@@ -524,19 +526,20 @@ class Daemon(object):
                 raise  # re-raise if flagged as callback, communication or security error.
 
     def _clientDisconnect(self, conn):
-        if config.ITER_STREAM_LINGER > 0:
-            # client goes away, keep streams around for a bit longer (allow reconnect)
-            for streamId in list(self.streaming_responses):
-                info = self.streaming_responses.get(streamId, None)
-                if info and info[0] is conn:
-                    _, timestamp, _, stream = info
-                    self.streaming_responses[streamId] = (None, timestamp, time.time(), stream)
-        else:
-            # client goes away, close any streams it had open as well
-            for streamId in list(self.streaming_responses):
-                info = self.streaming_responses.get(streamId, None)
-                if info and info[0] is conn:
-                    del self.streaming_responses[streamId]
+        with self.housekeeper_lock:
+            if config.ITER_STREAM_LINGER > 0:
+                # client goes away, keep streams around for a bit longer (allow reconnect)
+                for streamId in list(self.streaming_responses):
+                    info = self.streaming_responses.get(streamId, None)
+                    if info and info[0] is conn:
+                        _, timestamp, _, stream = info
+                        self.streaming_responses[streamId] = (None, timestamp, time.time(), stream)
+            else:
+                # client goes away, close any streams it had open as well
+                for streamId in list(self.streaming_responses):
+                    info = self.streaming_responses.get(streamId, None)
+                    if info and info[0] is conn:
+                        self.streaming_responses.pop(streamId, None)
         self.clientDisconnect(conn)  # user overridable hook
 
     def _housekeeping(self):
@@ -554,7 +557,7 @@ class Daemon(object):
                         if info:
                             last_use_period = time.time() - info[1]
                             if 0 < config.ITER_STREAM_LIFETIME < last_use_period:
-                                del self.streaming_responses[streamId]
+                                self.streaming_responses.pop(streamId, None)
                 if config.ITER_STREAM_LINGER > 0:
                     # cleanup iter streams that are past their linger time
                     for streamId in list(self.streaming_responses.keys()):
@@ -562,7 +565,7 @@ class Daemon(object):
                         if info and info[2]:
                             linger_period = time.time() - info[2]
                             if linger_period > config.ITER_STREAM_LINGER:
-                                del self.streaming_responses[streamId]
+                                self.streaming_responses.pop(streamId, None)
             self.housekeeping()
 
     def housekeeping(self):
